@@ -210,6 +210,21 @@ def run(ck):
                "with_context" in (callee_of(par.blocks[bb]["term"]).get("rpath") or "")]
         if ctx:
             ploops.append(il)
+    # a patch file that cannot be loaded or parsed is an error of the push: the Result goes on towards the caller, it is not replaced by a
+    # default (`unwrap_or_default()`: a missing patch would count as an empty one and be recorded as applied)
+    from .. import errflow
+    nload = 0
+    for f_ in [par, seq] + prog.closures_of(par) + prog.closures_of(seq):
+        for bb, t in f_.calls():
+            rp_ = callee_of(t).get("path") or ""
+            if f_.blocks[bb]["cleanup"] or "p" in t["dest"] or not (rp_.endswith("Arena::load_file") or rp_.endswith("::parse_patch")):
+                continue
+            nload += 1
+            fa = errflow.fate_of(f_, t["dest"]["l"])
+            ck.require(fa.returned and not fa.dropped and not fa.discarded, "C17-R3", "the result of %s in %s is handed on" % (rp_.split("::")[-1], f_.id.split("::")[-1]),
+                       "the Result of %s does not reach the return value of %s (%r): a patch file that is missing or unparseable would be passed "
+                       "over" % (rp_.split("::")[-1], f_.id.split("::")[-1], fa), f_.where(t), ok_detail=repr(fa))
+    ck.floor("C17-R3", "loads / parses of patch files in the drivers", nload, 3)
     if ck.require(len(ploops) >= 1, "C17-R3", "the parallel driver propagates parse errors in a loop", "no loop with `?` on the parse results", par.where()):
         for site, cl, agg in wl:
             ok = any(il["none_edge"] and site.bb in cfg.dominated_by_edge(par, il["none_edge"]) for il in ploops)
